@@ -2402,6 +2402,10 @@ def rule_status_semantics(a):
                     t, st = sts[-1]
                     parts.append(f"(=> (= {r[2]} 0) (and (= {t} 0) (= {okst[2]} {st})))")
                     parts.append(f"(=> (= {t} 1) (= {r[2]} 1))")
+                    # SKIP is only the answer when EVERY definition was evaluated (the walk ended because there was no further definition,
+                    # not because of anything else about the definition just evaluated)
+                    exhausted = "(or false " + " ".join(f"(= {tg} 0)" for _k, _e, tg, _i in iterations(ex, p)) + ")"
+                    parts.append(f"(=> (and (= {r[2]} 0) (= {t} 0) (= {st} {S})) {exhausted})")
                 elif not sts and okst is not None and okst[0] == "enum":
                     parts.append(f"(=> (and {found} (= {r[2]} 0)) (= {okst[2]} {S}))")
                 # what is cached is what is returned, under this name
@@ -2414,7 +2418,7 @@ def rule_status_semantics(a):
     c = a.discharge("RootScope::rule_status/first-non-skip", ex, bad,
                     f"status of a rule referenced by name, <= 2 definitions of that name ({ndef} evaluations over all paths): a cached "
                     "status is returned without evaluating anything; otherwise the definitions are evaluated in order, the first one whose "
-                    "status is not SKIP decides (all SKIP -> SKIP), an unknown name or an evaluation error is an error, and the status "
+                    "status is not SKIP decides (SKIP only after ALL definitions were evaluated and are SKIP), an unknown name or an evaluation error is an error, and the status "
                     "returned is cached under that name")
     if c:
         c["replay"] = replay_named_rules(a)
@@ -2428,9 +2432,12 @@ def replay_named_rules(a):
         return {"reproduced": False, "note": "native build failed"}
     data = '{"a": 1,\n "b": 2}\n'
     # `t` refers to `d`, defined twice: [SKIP, PASS] / [SKIP, FAIL] / [PASS, FAIL] / [FAIL, PASS] / [SKIP, SKIP]; before and after its user
-    defs = {"SKIP": "rule d when a == 9 { a == 1 }", "PASS": "rule d { a == 1 }", "FAIL": "rule d { a == 2 }"}
+    # USKIP: an UNGUARDED definition that evaluates to SKIP (a body `when` that does not hold)
+    defs = {"SKIP": "rule d when a == 9 { a == 1 }", "PASS": "rule d { a == 1 }", "FAIL": "rule d { a == 2 }",
+            "USKIP": "rule d {\n  when a == 9 {\n    a == 1\n  }\n}"}
     out = []
-    for first, second, exp in (("SKIP", "PASS", "PASS"), ("SKIP", "FAIL", "FAIL"), ("PASS", "FAIL", "PASS"), ("FAIL", "PASS", "FAIL"), ("SKIP", "SKIP", "FAIL")):
+    for first, second, exp in (("SKIP", "PASS", "PASS"), ("SKIP", "FAIL", "FAIL"), ("PASS", "FAIL", "PASS"), ("FAIL", "PASS", "FAIL"), ("SKIP", "SKIP", "FAIL"),
+                               ("USKIP", "PASS", "PASS"), ("PASS", "USKIP", "PASS"), ("USKIP", "FAIL", "FAIL"), ("USKIP", "SKIP", "FAIL")):
         for order in ("before", "after"):
             user = "rule t {\n  d\n}\nrule u {\n  d\n}\n"
             dd = defs[first] + "\n" + defs[second] + "\n"
@@ -4101,6 +4108,82 @@ def replay_sarif_results(a):
         shutil.rmtree(d, ignore_errors=True)
 
 
+def unary_record_message(a):
+    """C09 (`every check listed under a non-compliant rule carries the clause's custom message`): record_unary_clause's per-value closure
+    records, for EVERY value it visits, a check whose custom_message is the clause's own message as captured - the same for the first
+    and for every later value (the closure does not consume or change what it captured)"""
+    exp = a.exec(r"(?:(?:rules::)?eval::)?record_unary_clause::\{closure#0\}",
+                 {"call": lambda ex, av: ex.fresh_result(ex.havoc("bool"), "op"), "start_record": mirexec.m_result_unit, "end_record": mirexec.m_result_unit,
+                  "clone": mirexec.m_identity, RC_NEW: mirexec.m_identity},
+                 log=("*",), unroll=1, max_paths=4000, deepen=False)
+    a.fns.append("rules::eval::record_unary_clause::{closure#0} (message of the record)")
+    env = exp.arg_env["_1"]
+    bad, nrec, keys = [], 0, set()
+    for p in exp.paths:
+        ok = True
+        consumed = [e[1] for e in p.events if e[0] == "call" and e[1] in ("take", "replace", "swap", "take_if", "insert", "get_or_insert_with")]
+        stores = [k for k in (p.env.get("$stores") or {}) if isinstance(k, tuple) and k and k[0] == (env[1] if env[0] == "opaque" else None)]
+        for e in calls(p, "end_record"):
+            rec = e[2][2] if len(e[2]) > 2 else None
+            if not (rec and rec[0] == "variant" and rec[2] == "ClauseValueCheck" and rec[3] and rec[3][0][0] == "variant" and rec[3][0][2] == "Unary"):
+                continue
+            nrec += 1
+            uv = rec[3][0][3][0]
+            vc = uv[2].get("value") if uv[0] == "struct" else None
+            cm = vc[2].get("custom_message") if vc is not None and vc[0] == "struct" else None
+            o = origin(exp, cm) if cm is not None and cm[0] == "opaque" else None
+            if o is None or not same(o[0], env) or len(o[1]) != 1:
+                ok = False
+            else:
+                keys.add(o[1][0])
+        if consumed or stores:
+            ok = False
+        bad.append("false" if ok else pc_term(p.pc))
+    if len(keys) > 1:
+        bad.append("true")
+    c = a.discharge("record_unary_clause/every-record-carries-the-clause-message", exp, bad,
+                    f"record_unary_clause ({nrec} Unary records over all paths): the custom_message of every record - passing, failing, erroring - is the "
+                    "message captured with the clause (one and the same capture), and the closure neither takes nor overwrites it between values")
+    if c:
+        c["replay"] = replay_unary_messages(a)
+        c["reproduced"] = c["replay"].get("reproduced", False)
+        a.candidates.append(c)
+
+
+def replay_unary_messages(a):
+    """unary clauses with a custom message over several values of which 2-3 fail: every failing check of the report carries the message"""
+    exe = a.cli()
+    if not exe:
+        return {"reproduced": False, "note": "native build failed"}
+    data = ('{"Resources": {"a": {"Properties": {"Name": 1, "Tags": []}}, "b": {"Properties": {"Name": 2, "Tags": []}}, "c": {"Properties": {"Name": "ok", "Tags": [1]}},\n'
+            ' "d": {"Properties": {"Name": 3, "Tags": "x"}}}}\n')
+    out = []
+    for clause, nfail in (("Resources.*.Properties.Name is_string", 3), ("Resources.*.Properties.Tags !empty", 2), ("Resources.*.Properties.Tags is_list", 1),
+                          ("Resources.*.Properties.Missing exists", 4), ("Resources.*.Properties.Name !is_int", 3)):
+        msg = "names and tags must be right"
+        rc, rep, err = a.run_structured(exe, f"rule r {{\n  {clause} <<{msg}>>\n}}\n", [data])
+        if not (rep and isinstance(rep, list) and rep):
+            out.append({"clause": clause, "problem": "no report", "exit": rc})
+            continue
+        found = []
+
+        def walk(o, in_clause=False):
+            if isinstance(o, dict):
+                if in_clause and "custom_message" in o:
+                    found.append(o["custom_message"])
+                for k, v in o.items():
+                    walk(v, in_clause or k == "Clause")
+            elif isinstance(o, list):
+                for v in o:
+                    walk(v, in_clause)
+        walk(rep[0].get("not_compliant", []))
+        wrong = [m for m in found if (m or "").strip() != msg]
+        if wrong or len(found) != nfail:
+            out.append({"clause": clause, "failing_values": nfail, "checks_with_a_message_field": len(found), "messages_that_differ": wrong[:3]})
+    real = [o for o in out if "problem" not in o]
+    return {"reproduced": bool(real), "mismatches": out[:4]}
+
+
 def report_builder_total_on_unary(a):
     """C08: a unary clause that FAILs on a literal variable (`let v = 5`, `%v is_string`) must give a verdict, not a crash. Every consumer
     of the records (the report builder, the console reporters) has `QueryResult::Literal(_) => unreachable!()` for the recorded value of a
@@ -4696,8 +4779,8 @@ SITES = {
     "C07": [flags_verdict_wiring, reporter_chain, library_entry_wiring, sarif_one_result_per_message, sarif_per_file_results, junit_escaping_sites, report_combine_union, structured_report, junit_test_case, junit_report, validate_execute_step,
             data_input_params_wiring, structured_merge_closure],
     "C16": [test_generic_report, test_get_by_result, test_get_by_rules, test_structured_evaluate, test_result_exit_code, test_junit_counts, test_junit_case_marks, test_data_per_spec],
-    "C02": [param_ctx_end_record, scope_delegations, param_rule_call],
-    "C09": [report_partition, report_rule_listing, report_clause_content, report_combine_union, unary_empty_on_expr, param_ctx_end_record],
+    "C02": [param_ctx_end_record, scope_delegations, param_rule_call, rule_status_semantics],
+    "C09": [unary_record_message, report_partition, report_rule_listing, report_clause_content, report_combine_union, unary_empty_on_expr, param_ctx_end_record],
     "C10": [report_clause_content],
     "C15": [scope_resolution, scope_discipline, scope_delegations, variable_tables, param_rule_call, param_literal_kind, param_ctx_resolve],
     "C03": [param_rule_call],
